@@ -132,6 +132,12 @@ def pattern_family():
             sdesc([anyn], [one]*3), sdesc([anyn]*2, [one]*3), sdesc([anyn]*2, [opt]*3),
             sdesc([{'dl': [2], 'dmin': 0, 'dmax': 0, 'rep': False}], [opt]*4),
             sdesc([{'dl': [2], 'dmin': 0, 'dmax': 0, 'rep': True}], [{'dl': [], 'dmin': 0, 'dmax': -1, 'rep': True}]*3)]
+    # partitioning shapes: k..* sources (k >= 1), targets all '1' or all '0..1'; non-palindromic option counts
+    plus = {'dl': [], 'dmin': 1, 'dmax': -1, 'rep': False}
+    two = {'dl': [], 'dmin': 2, 'dmax': -1, 'rep': False}
+    out += [sdesc([plus]*3, [opt]*4), sdesc([plus]*3, [one]*4), sdesc([plus]*4, [one]*5), sdesc([two]*2, [one]*5),
+            sdesc([{'dl': [0, 1, 2, 3], 'dmin': 0, 'dmax': 0, 'rep': True}], [{'dl': [0, 1], 'dmin': 0, 'dmax': 0, 'rep': True}, {'dl': [2], 'dmin': 0, 'dmax': 0, 'rep': True}]),
+            sdesc([{'dl': [0, 1], 'dmin': 0, 'dmax': 0, 'rep': True}, {'dl': [2], 'dmin': 0, 'dmax': 0, 'rep': True}], [{'dl': [0, 1, 2, 3], 'dmin': 0, 'dmax': 0, 'rep': True}])]
     return [json_copy(s) for s in out]
 
 
